@@ -49,8 +49,15 @@ def rnd_item(rng, base=None):
     else:
         # radius comparable to the distance, to hit the max(0, .) boundary
         radius = abs(rnd_coord(rng))
+    # position history: the item may be turned (orientation) and moved again; only the last coordinate counts
+    k = rng.random()
+    orient = [rng.choice([-1, 0, 1, 0.5]) for _ in range(3)] if k < 0.5 else None
+    if orient is not None and not any(orient):
+        orient[rng.randrange(3)] = 1          # the zero vector is rejected by Orientation itself
+    orient_when = rng.choice(['after', 'before', 'between'])
+    first = [rnd_coord(rng) for _ in range(3)] if rng.random() < 0.3 else None
     return {'cls': cls, 'where': where, 'coord': coord, 'radius': radius,
-            'loaded': rng.random() < 0.9}
+            'loaded': rng.random() < 0.9, 'orient': orient, 'orient_when': orient_when, 'first_coord': first}
 
 
 def gen_cases(rng, n):
@@ -96,7 +103,18 @@ def build_world(case):
             ch.mktype(tid, attrs=attrs)
         cls = {'ship': Ship, 'drone': Drone, 'fighter': FighterSquad}[it['cls']]
         obj = cls(tid)
+        from eos import Orientation
+        orient = it.get('orient')
+        if orient is not None and it.get('orient_when') == 'before':
+            obj.orientation = Orientation(*orient)
+        if it.get('first_coord') is not None:
+            obj.coordinate = Coordinates(*it['first_coord'])
+            if orient is not None and it.get('orient_when') == 'between':
+                obj.orientation = Orientation(*orient)
         obj.coordinate = Coordinates(*it['coord'])
+        if orient is not None and (it.get('orient_when') == 'after' or
+                                   (it.get('orient_when') == 'between' and it.get('first_coord') is None)):
+            obj.orientation = Orientation(*orient)
         if it['where'] != 'nofit':
             fit = Fit(solar_system={'self': solsys, 'other': other, 'nosys': None, 'removed': solsys,
                                     'cleared': solsys, 'moved': solsys}[it['where']])
